@@ -258,16 +258,26 @@ class Ref3D(object):
         self.bands, self.k, self.lo, self.hi = bands, k, lo, hi
         self.distances = distances_kpc
         self.rows = []
+        self.dlog = []   # rounding sensitivity of each model log flux to a 1-ulp change of the requested aperture
         per_band = len(ap_table) > 0 and isinstance(ap_table[0], (list, tuple))
         for d in distances_kpc:
-            logm = []
+            logm, dl = [], []
             for j in range(len(bands)):
                 ap_au = theta[j] * d * 1000.  # arcsec * pc = AU
-                fl = aperture_flux(ap_table[j] if per_band else ap_table, flux_table[j], ap_au)
+                tab = ap_table[j] if per_band else ap_table
+                fl = aperture_flux(tab, flux_table[j], ap_au)
                 if fl is None:
                     raise ValueError('aperture below the table')
                 logm.append(math.log10(fl * (1. / d) ** 2))
+                slope = 0.
+                if len(tab) > 1 and ap_au < tab[-1]:
+                    for i in range(len(tab) - 1):
+                        if tab[i] <= ap_au <= tab[i + 1]:
+                            slope = max(slope, abs((flux_table[j][i + 1] - flux_table[j][i]) / (tab[i + 1] - tab[i])))
+                # (ap - a_i) is formed by subtraction: absolute error ~eps*ap, i.e. eps*ap*slope in the flux
+                dl.append(4.5e-16 * slope * ap_au / (fl * LN10))
             self.rows.append(logm)
+            self.dlog.append(dl)
 
     def at_distance(self, i, margin=1e-9):
         """-> dict(av, S, sure, maybe, T, scale_av) at grid distance i (floats from exact arithmetic)."""
@@ -293,7 +303,12 @@ class Ref3D(object):
             elif (b[0] == 'lower' and diff < 0) or (b[0] == 'upper' and diff > 0):
                 sure += pen
         sabs = sum(float(w) * abs(float(r)) * abs(float(kk)) for w, r, kk in fit)
-        return {'av': avf, 'S': float(S), 'sure': sure, 'maybe': maybe, 'T': float(T),
+        cond_slack = 0.
+        for (bb, L, kk, dL) in zip(self.bands, logm, self.k, self.dlog[i]):
+            if bb[0] == 'fit' and dL > 0.:
+                res = abs(bb[1] - L - avf * kk)
+                cond_slack += bb[2] * (2. * res * dL + dL * dL)
+        return {'av': avf, 'S': float(S), 'sure': sure, 'maybe': maybe, 'T': float(T), 'cond_slack': 2. * cond_slack,
                 'av_tol': 1e-10 * sabs / float(swkk) + 1e-12, 'fit': fit, 'logm': logm}
 
     def objective_at(self, i, av):
